@@ -724,3 +724,92 @@ impl CpcSketch {
         self.num_coupons
     }
 }
+
+/// Snapshot of the internal state of a [`CpcSketch`] for the external verification harness
+/// (feature `verif-hooks`). Nothing here changes behaviour.
+#[cfg(feature = "verif-hooks")]
+#[derive(Debug, Clone)]
+pub struct VerifCpcState {
+    /// Configured log2 of K.
+    pub lg_k: u8,
+    /// Number of coupons collected.
+    pub num_coupons: u32,
+    /// Current window offset.
+    pub window_offset: u8,
+    /// First interesting column.
+    pub first_interesting_column: u8,
+    /// Flavor code: 0 Empty, 1 Sparse, 2 Hybrid, 3 Pinned, 4 Sliding.
+    pub flavor: u8,
+    /// The sliding window bytes (empty in sparse mode).
+    pub window: Vec<u8>,
+    /// The items of the surprising value table, sorted ascending.
+    pub table: Vec<u32>,
+    /// Whether a surprising value table has been allocated.
+    pub has_table: bool,
+    /// Bit pattern of the KXP register.
+    pub kxp_bits: u64,
+    /// Bit pattern of the HIP accumulator.
+    pub hip_bits: u64,
+    /// Merge flag.
+    pub merge_flag: bool,
+}
+
+#[cfg(feature = "verif-hooks")]
+impl CpcSketch {
+    /// Verification hook: feeds a raw `(row << 6) | col` pair to the sketch, exactly as
+    /// [`CpcSketch::update`] does after hashing.
+    pub fn verif_row_col_update(&mut self, row_col: u32) {
+        self.row_col_update(row_col);
+    }
+
+    /// Verification hook: the full `k x 64` bit matrix the sketch represents.
+    pub fn verif_bit_matrix(&self) -> Vec<u64> {
+        self.build_bit_matrix()
+    }
+
+    /// Verification hook: `(num_coupons, window_offset, first_interesting_column, flavor code,
+    /// kxp bits, hip accumulator bits)`.
+    pub fn verif_summary(&self) -> (u32, u8, u8, u8, u64, u64) {
+        (
+            self.num_coupons,
+            self.window_offset,
+            self.first_interesting_column,
+            self.flavor() as u8,
+            self.kxp.to_bits(),
+            self.hip_est_accum.to_bits(),
+        )
+    }
+
+    /// Verification hook: snapshot of the whole internal state.
+    pub fn verif_state(&self) -> VerifCpcState {
+        let mut table: Vec<u32> = match &self.surprising_value_table {
+            Some(t) => t.slots().iter().copied().filter(|&x| x != u32::MAX).collect(),
+            None => vec![],
+        };
+        table.sort_unstable();
+        VerifCpcState {
+            lg_k: self.lg_k,
+            num_coupons: self.num_coupons,
+            window_offset: self.window_offset,
+            first_interesting_column: self.first_interesting_column,
+            flavor: self.flavor() as u8,
+            window: self.sliding_window.clone(),
+            table,
+            has_table: self.surprising_value_table.is_some(),
+            kxp_bits: self.kxp.to_bits(),
+            hip_bits: self.hip_est_accum.to_bits(),
+            merge_flag: self.merge_flag,
+        }
+    }
+
+    /// Verification hook: `determine_flavor(lg_k, num_coupons)` as its flavor code
+    /// (0 Empty, 1 Sparse, 2 Hybrid, 3 Pinned, 4 Sliding).
+    pub fn verif_determine_flavor(lg_k: u8, num_coupons: u32) -> u8 {
+        determine_flavor(lg_k, num_coupons) as u8
+    }
+
+    /// Verification hook: `determine_correct_offset(lg_k, num_coupons)`.
+    pub fn verif_determine_correct_offset(lg_k: u8, num_coupons: u32) -> u8 {
+        determine_correct_offset(lg_k, num_coupons)
+    }
+}
